@@ -16,7 +16,8 @@ FieldsOf(s) == CASE s = "contexts" -> {"dir", "up", "down", "before", "after", "
                  [] s = "pipelines" -> {"name", "condition", "task", "pipeline", "depends_on", "allow_failure", "dir", "env", "variables"}
                  [] OTHER -> {"events", "watch", "exclude", "task", "variables"}
 TopLevel == {"import", "import[0]", "variables", "debug", "output", "dryrun", "summary"}
-Shapes == {"null", "int", "string", "bool", "list", "map", "deleted", "duplicated", "unknownkey", "emptystring", "listofmaps", "nestedlist"}
+Shapes == {"null", "int", "string", "bool", "list", "map", "deleted", "duplicated", "unknownkey", "emptystring", "listofmaps", "nestedlist",
+           "intkey", "boolkey", "nullkey"}     \* a key that is not a string (YAML only): 2024, true, ~
 \* position: <<section>> | <<section, "entry">> | <<section, "entry", field>> | <<"top", key>>
 Positions == {<<"top", k>> : k \in TopLevel}
         \cup {<<s>> : s \in Sections}
